@@ -48,6 +48,17 @@ func dependsOnIntParam(v ssa.Value, depth int) bool {
 		return dependsOnIntParam(x.X, depth+1) || dependsOnIntParam(x.Y, depth+1)
 	case *ssa.Convert:
 		return dependsOnIntParam(x.X, depth+1)
+	case *ssa.Call:
+		// result of a helper fed with a parameter-dependent count (clamp/min/max helpers)
+		if core.Callee(&x.Call) != nil && core.IsInteger(x.Type()) {
+			if _, isB := x.Call.Value.(*ssa.Builtin); !isB {
+				for _, a := range x.Call.Args {
+					if dependsOnIntParam(a, depth+1) {
+						return true
+					}
+				}
+			}
+		}
 	case *ssa.Phi:
 		for _, e := range x.Edges {
 			if dependsOnIntParam(e, depth+1) {
@@ -118,7 +129,7 @@ func runC03(c *core.Ctx) {
 				}
 				n++
 				key := fmt.Sprintf("%s/slice#%d", f.Name(), n)
-				z := core.ZoneAt(ins.Block())
+				z := core.ZoneAtIP(p, ins.Block())
 				lenS := lenValue(x.X)
 				var fails []string
 				zero := ssa.Value(nil)
@@ -170,7 +181,7 @@ func runC03(c *core.Ctx) {
 				}
 				n++
 				key := fmt.Sprintf("%s/index#%d", f.Name(), n)
-				z := core.ZoneAt(ins.Block())
+				z := core.ZoneAtIP(p, ins.Block())
 				ok := false
 				// index on a slice expression with constant bounds: len known
 				if sl, isSl := X.(*ssa.Slice); isSl && isConstV(idx) {
